@@ -56,7 +56,7 @@ extern "C" void __asan_on_error() { if (sh) sh->asan_errors++; }
 // ------------------------------------------------------------------------------------------------
 // guarded allocations, freed after each command
 struct Region { void* base; size_t len; };
-static std::vector<Region> regions;
+static thread_local std::vector<Region> regions;
 static const size_t PG = 4096;
 static const size_t TRAIL = 32;
 
@@ -184,6 +184,127 @@ static void dump_tpl(std::string& o, CK_ATTRIBUTE* a, std::vector<Ent>& ents)
 		o += "]";
 	}
 	o += "]";
+}
+
+
+// ------------------------------------------------------------------------------------------------
+// thrmc: deterministic thread scheduler behind the application mutex callbacks (C18, DESIGN 2.5).
+// Only the baton holder runs.  LockMutex is a scheduling point and blocks in the scheduler (never in the kernel) while the mutex is
+// owned; thread start and thread end are scheduling points as well.  The choice at each point comes from the schedule prefix given
+// by the explorer, afterwards the default policy applies: keep the running thread if it is enabled, else the lowest enabled id.
+struct SMutex { int owner; bool alive; };
+struct SPoint { int running; std::vector<int> enabled; int chosen; char kind; };
+struct Sched {
+	bool active = false;
+	int nthreads = 0;
+	int current = -1;                 // baton
+	std::vector<int> waiting_on;      // per thread: index of the mutex it wants (-1 none)
+	std::vector<bool> finished, started;
+	std::vector<SMutex> mutexes;      // index = id stored behind the CK_VOID_PTR
+	std::vector<int> prefix;
+	std::vector<SPoint> points;
+	std::string error;                // deadlock / protocol violation
+	pthread_mutex_t mu = PTHREAD_MUTEX_INITIALIZER;
+	pthread_cond_t cv = PTHREAD_COND_INITIALIZER;
+	unsigned long created = 0, destroyed = 0, locks = 0, unlocks = 0;
+	size_t max_points = 200000;
+};
+static Sched S;
+static thread_local int my_tid = -1;
+
+static bool s_enabled(int t)
+{
+	if (S.finished[t]) return false;
+	int w = S.waiting_on[t];
+	if (w < 0) return true;
+	return S.mutexes[w].owner < 0;
+}
+// called with S.mu held by the baton holder `me` (or -1 for the initial choice); picks the next runner and waits until `me` holds the baton again
+static void s_choose(int me, char kind)
+{
+	std::vector<int> en;
+	if (me >= 0 && s_enabled(me)) en.push_back(me);
+	for (int t = 0; t < S.nthreads; t++) if (t != me && s_enabled(t)) en.push_back(t);
+	if (en.empty()) {
+		bool all_done = true;
+		for (int t = 0; t < S.nthreads; t++) if (!S.finished[t]) all_done = false;
+		if (!all_done && S.error.empty()) S.error = "deadlock: no enabled thread";
+		S.current = -2;                       // release everybody: the run is over (or broken)
+		pthread_cond_broadcast(&S.cv);
+		return;
+	}
+	size_t i = S.points.size();
+	int choice = 0;
+	if (i < S.prefix.size()) { choice = S.prefix[i]; if (choice < 0 || choice >= (int)en.size()) { if (S.error.empty()) S.error = "schedule prefix diverged at point " + std::to_string(i); choice = 0; } }
+	SPoint pt; pt.running = me; pt.enabled = en; pt.chosen = en[choice]; pt.kind = kind;
+	if (S.points.size() < S.max_points) S.points.push_back(pt);
+	else if (S.error.empty()) S.error = "too many scheduling points";
+	S.current = en[choice];
+	pthread_cond_broadcast(&S.cv);
+}
+static void s_wait_baton(int me)
+{
+	while (S.current != me && S.current != -2) pthread_cond_wait(&S.cv, &S.mu);
+}
+static CK_RV scb_create(CK_VOID_PTR_PTR pp)
+{
+	pthread_mutex_lock(&S.mu);
+	S.mutexes.push_back({-1, true});
+	*pp = (CK_VOID_PTR)(uintptr_t)(S.mutexes.size());       // id + 1, never NULL
+	S.created++;
+	pthread_mutex_unlock(&S.mu);
+	return CKR_OK;
+}
+static int s_index(CK_VOID_PTR p, const char* what)
+{
+	uintptr_t v = (uintptr_t)p;
+	if (v == 0 || v > S.mutexes.size() || !S.mutexes[v - 1].alive) { if (S.error.empty()) S.error = std::string("mutex protocol: ") + what + " on a mutex the application did not create (or destroyed)"; return -1; }
+	return (int)(v - 1);
+}
+static CK_RV scb_destroy(CK_VOID_PTR p)
+{
+	pthread_mutex_lock(&S.mu);
+	int i = s_index(p, "DestroyMutex");
+	if (i >= 0) { if (S.mutexes[i].owner >= 0 && S.error.empty()) S.error = "mutex protocol: DestroyMutex on a locked mutex"; S.mutexes[i].alive = false; S.destroyed++; }
+	pthread_mutex_unlock(&S.mu);
+	return CKR_OK;
+}
+static CK_RV scb_lock(CK_VOID_PTR p)
+{
+	pthread_mutex_lock(&S.mu);
+	S.locks++;
+	int i = s_index(p, "LockMutex");
+	if (i < 0) { pthread_mutex_unlock(&S.mu); return CKR_OK; }
+	int me = S.active ? my_tid : -1;
+	if (me < 0) {          // single-threaded phase (set-up / final observations): no scheduling
+		if (S.mutexes[i].owner != -1 && S.error.empty()) S.error = "mutex protocol: LockMutex on an owned mutex outside the threaded phase";
+		S.mutexes[i].owner = 100;
+		pthread_mutex_unlock(&S.mu);
+		return CKR_OK;
+	}
+	if (S.mutexes[i].owner == me && S.error.empty()) S.error = "mutex protocol: re-lock by the owner";
+	S.waiting_on[me] = i;
+	s_choose(me, 'L');
+	s_wait_baton(me);
+	if (S.current == -2) { S.waiting_on[me] = -1; pthread_mutex_unlock(&S.mu); return CKR_OK; }      // run aborted (deadlock): let the thread unwind
+	// we hold the baton and the mutex is free (that is what enabled means)
+	S.mutexes[i].owner = me;
+	S.waiting_on[me] = -1;
+	pthread_mutex_unlock(&S.mu);
+	return CKR_OK;
+}
+static CK_RV scb_unlock(CK_VOID_PTR p)
+{
+	pthread_mutex_lock(&S.mu);
+	S.unlocks++;
+	int i = s_index(p, "UnlockMutex");
+	if (i >= 0) {
+		int me = S.active ? my_tid : 100;
+		if (S.mutexes[i].owner != me && S.current != -2 && S.error.empty()) S.error = "mutex protocol: UnlockMutex by a thread that does not own the mutex";
+		S.mutexes[i].owner = -1;
+	}
+	pthread_mutex_unlock(&S.mu);
+	return CKR_OK;
 }
 
 // ------------------------------------------------------------------------------------------------
@@ -417,6 +538,7 @@ static std::string handle(const Req& r)
 				ia.CreateMutex = cb_create; ia.DestroyMutex = cb_destroy; ia.LockMutex = cb_lock; ia.UnlockMutex = cb_unlock;
 				ia.flags = !strcmp(a, "cbos") ? CKF_OS_LOCKING_OK : 0;
 			} else if (!strcmp(a, "partial")) { ia.CreateMutex = cb_create; ia.LockMutex = cb_lock; }
+			else if (!strcmp(a, "sched")) { ia.CreateMutex = scb_create; ia.DestroyMutex = scb_destroy; ia.LockMutex = scb_lock; ia.UnlockMutex = scb_unlock; ia.flags = 0; }
 			else if (!strcmp(a, "raw")) {
 				unsigned long cb = r.U("cb");
 				if (cb & 1) ia.CreateMutex = cb_create;
@@ -696,6 +818,113 @@ static std::string handle(const Req& r)
 	return "{\"error\":\"unknown command " + c + "\"}";
 }
 
+
+// ------------------------------------------------------------------------------------------------
+// RUNTHREADS: run thread bodies (lists of request lines) under the scheduler, or in a given sequential order
+struct TBody { std::vector<std::string> lines; std::vector<std::string> answers; std::vector<unsigned long> hs; };
+static std::vector<TBody> T_bodies;
+static std::vector<std::string> T_final, T_final_answers;
+
+static std::string subst(const std::string& line, const TBody& b)
+{
+	std::string o;
+	for (size_t i = 0; i < line.size(); i++) {
+		if (line[i] == '$' && i + 1 < line.size() && isdigit((unsigned char)line[i + 1])) {
+			size_t j = i + 1; unsigned long k = 0;
+			while (j < line.size() && isdigit((unsigned char)line[j])) { k = k * 10 + (line[j] - '0'); j++; }
+			o += std::to_string(k < b.hs.size() ? b.hs[k] : 0);
+			i = j - 1;
+		} else o += line[i];
+	}
+	return o;
+}
+static bool parse_req(const std::string& line, Req& r);
+static void run_line(TBody& b, size_t i)
+{
+	Req r;
+	std::string line = subst(b.lines[i], b);
+	std::string ans = "{\"error\":\"empty\"}";
+	if (parse_req(line, r)) { ans = handle(r); gfree_all(); }
+	unsigned long h = 0;
+	size_t at = ans.find("\"h\":");
+	if (at != std::string::npos) h = strtoul(ans.c_str() + at + 4, NULL, 10);
+	b.hs.push_back(h);
+	b.answers.push_back(ans);
+}
+static void* thread_main(void* arg)
+{
+	int t = (int)(intptr_t)arg;
+	my_tid = t;
+	pthread_mutex_lock(&S.mu);
+	s_wait_baton(t);
+	pthread_mutex_unlock(&S.mu);
+	TBody& b = T_bodies[t];
+	for (size_t i = 0; i < b.lines.size(); i++) {
+		if (S.current == -2 && !S.error.empty()) break;      // run aborted
+		run_line(b, i);
+	}
+	pthread_mutex_lock(&S.mu);
+	S.finished[t] = true;
+	s_choose(t, 'E');
+	pthread_mutex_unlock(&S.mu);
+	return NULL;
+}
+static std::string run_threads(const std::string& spec)
+{
+	unsigned long asan_at_start = sh->asan_errors;
+	T_bodies.clear(); T_final.clear(); T_final_answers.clear();
+	std::vector<int> prefix;
+	std::vector<std::pair<int, int>> seq;
+	bool sequential = false;
+	size_t pos = 0;
+	while (pos < spec.size()) {
+		size_t nl = spec.find('\n', pos);
+		if (nl == std::string::npos) nl = spec.size();
+		std::string l = spec.substr(pos, nl - pos);
+		pos = nl + 1;
+		if (l.empty()) continue;
+		if (l.compare(0, 9, "schedule ") == 0 || l == "schedule") { const char* c = l.c_str() + 8; char* e; while (*c) { long v = strtol(c, &e, 10); if (e == c) break; prefix.push_back((int)v); c = e; } }
+		else if (l.compare(0, 4, "seq ") == 0) { sequential = true; const char* c = l.c_str() + 4; char* e; while (*c) { long a = strtol(c, &e, 10); if (e == c || *e != ':') break; c = e + 1; long b2 = strtol(c, &e, 10); seq.push_back({(int)a, (int)b2}); c = e; } }
+		else if (l[0] == 'T') { char* e; long t = strtol(l.c_str() + 1, &e, 10); if ((size_t)t >= T_bodies.size()) T_bodies.resize(t + 1); T_bodies[t].lines.push_back(std::string(*e == ' ' ? e + 1 : e)); }
+		else if (l[0] == 'F' && l.size() > 2) T_final.push_back(l.substr(2));
+	}
+	int n = (int)T_bodies.size();
+	S.error.clear(); S.points.clear(); S.prefix = prefix;
+	if (sequential) {
+		S.active = false;
+		for (auto& pr : seq) if (pr.first < n && (size_t)pr.second < T_bodies[pr.first].lines.size()) run_line(T_bodies[pr.first], pr.second);
+	} else {
+		S.nthreads = n; S.current = -1;
+		S.waiting_on.assign(n, -1); S.finished.assign(n, false); S.started.assign(n, false);
+		S.active = true;
+		std::vector<pthread_t> th(n);
+		for (int t = 0; t < n; t++) pthread_create(&th[t], NULL, thread_main, (void*)(intptr_t)t);
+		pthread_mutex_lock(&S.mu);
+		s_choose(-1, 'S');
+		pthread_mutex_unlock(&S.mu);
+		for (int t = 0; t < n; t++) pthread_join(th[t], NULL);
+		S.active = false;
+		// mutexes still owned after the threaded phase are a protocol problem of the library, not of the harness
+		for (size_t i = 0; i < S.mutexes.size(); i++) if (S.mutexes[i].alive && S.mutexes[i].owner >= 0 && S.mutexes[i].owner < 100 && S.error.empty()) S.error = "mutex still locked after all threads finished";
+	}
+	my_tid = -1;
+	TBody fb; fb.lines = T_final;
+	if (S.error.compare(0, 8, "deadlock") != 0) for (size_t i = 0; i < fb.lines.size(); i++) run_line(fb, i);
+	std::string o = "{\"threads\":[";
+	for (int t = 0; t < n; t++) { if (t) o += ","; o += "["; for (size_t i = 0; i < T_bodies[t].answers.size(); i++) { if (i) o += ","; o += T_bodies[t].answers[i]; } o += "]"; }
+	o += "],\"final\":[";
+	for (size_t i = 0; i < fb.answers.size(); i++) { if (i) o += ","; o += fb.answers[i]; }
+	o += "],\"points\":[";
+	for (size_t i = 0; i < S.points.size(); i++) {
+		if (i) o += ",";
+		o += "[" + std::to_string(S.points[i].running) + "," + std::to_string(S.points[i].chosen) + ",\"" + std::string(1, S.points[i].kind) + "\",[";
+		for (size_t k = 0; k < S.points[i].enabled.size(); k++) { if (k) o += ","; o += std::to_string(S.points[i].enabled[k]); }
+		o += "]]";
+	}
+	o += "],\"serr\":\"" + S.error + "\",\"mutexes\":" + std::to_string(S.created) + ",\"locks\":" + std::to_string(S.locks) + ",\"asan\":" + std::to_string(sh->asan_errors - asan_at_start) + "}";
+	return o;
+}
+
 // ------------------------------------------------------------------------------------------------
 static bool parse_req(const std::string& line, Req& r)
 {
@@ -763,6 +992,37 @@ int main(int, char**)
 				draining = true;
 				reply(d);
 			}
+			continue;
+		}
+		if (r.cmd == "RUNTHREADS") {
+			// spec: hex-encoded text (see run_threads); runs in a forked child on a private copy of the directory, the child answers
+			std::string spec;
+			const char* hx = r.get("spec");
+			if (hx) for (size_t i = 0; hx[i] && hx[i + 1]; i += 2) spec.push_back((char)(hexv(hx[i]) * 16 + hexv(hx[i + 1])));
+			unsigned long id = ++sh->snap_counter;
+			std::string nd = "../t" + std::to_string(id);
+			sh->back_ok = 0;
+			pid_t pid = fork();
+			if (pid < 0) { reply("{\"error\":\"fork failed\"}"); continue; }
+			if (pid == 0) {
+				copytree(".", nd);
+				if (chdir(nd.c_str()) != 0) _exit(96);
+				alarm(r.U("timeout", 30));
+				std::string res = run_threads(spec);
+				reply(res);
+				sh->back_ok = 1;
+				_exit(0);
+			}
+			int st = 0;
+			while (waitpid(pid, &st, 0) < 0 && errno == EINTR) {}
+			rmtree(nd);
+			if (!(sh->back_ok && WIFEXITED(st) && WEXITSTATUS(st) == 0)) {
+				std::string d = "{\"tdied\":{";
+				if (WIFSIGNALED(st)) d += "\"signal\":" + std::to_string(WTERMSIG(st)); else d += "\"exit\":" + std::to_string(WEXITSTATUS(st));
+				d += "},\"asan\":" + std::to_string(sh->asan_errors) + "}";
+				reply(d);
+			}
+			sh->back_ok = 0;
 			continue;
 		}
 		if (r.cmd == "BACK") {
